@@ -172,6 +172,7 @@ class C05Machine(Machine):
         self.rejected = []        # earlier rejected submissions (op dicts), for the retry relations
         self.delimiter0 = config["delimiter"]
         self.focus = None
+        self.single = None
         self.observe_every = int(config.get("observe_every", 1))
         self.dirty = False        # calls were made since the converter was last looked at
         self.n_calls = 0
@@ -436,7 +437,7 @@ class C05Machine(Machine):
                 yield c
             if not op["case_sensitive"]:
                 yield dict(copy.deepcopy(op), case_sensitive=True)
-            if op["op"] == "add_record" and not op.get("same_object") and not r.get("pattern"):
+            if op["op"] == "add_record" and not op.get("same_object") and r.get("pattern") is None:
                 yield dict(copy.deepcopy(op), op="add_prefix")
 
     # ------------------------------------------------------------ execution
@@ -521,10 +522,30 @@ class C05Machine(Machine):
         rd = op["record"]
         site = "Converter." + op["op"]
         cs, merge = op["case_sensitive"], op["merge"]
+        # The submission as a Record of the library under test. "Over all records": what the Record class
+        # makes of the caller's data (say, an empty pattern stored as no pattern) IS the record the
+        # property speaks about, so the model is fed from the constructed object, not from the op; data
+        # the Record class refuses to build is not a record and the call is not made (an irregular
+        # submission - see irregular() - is the exception: its refusal is the known one).
+        irr = irregular(rd)
+        robj, cerr = None, None
+        if op["op"] == "add_record" and op.get("same_object") and self.last_record_obj is not None:
+            robj = self.last_record_obj
+            self.probe("same_object_twice")
+        else:
+            try:
+                robj = c.Record(**(rd if op["op"] == "add_record" else dict(rd, pattern=None)))
+            except Exception as e:  # noqa: BLE001
+                cerr = e
+        if cerr is not None and not irr:
+            self.event("submission_not_constructible_as_Record")
+            return {"result": "not_a_record", "exception": type(cerr).__name__}
+        if robj is not None:
+            rd = observe.record_dump(robj)
         mrec = MRecord.from_dump(rd)
         self.n_calls += 1
         if self.observe_every > 1 and self.n_calls % self.observe_every != 0:
-            return self._apply_unobserved(op, rd, mrec, site, cs, merge)
+            return self._apply_unobserved(op, rd, mrec, site, cs, merge, robj, cerr, irr)
         if self.dirty:
             self._catch_up(site)
         pre = self.snap
@@ -561,34 +582,19 @@ class C05Machine(Machine):
             # ... and once more, one single key, as the very last lookup before the call
             observe.answers(conv, fstrings[-1:], fpairs[-1:], full=False)
 
-        err = None
-        try:
-            if op["op"] == "add_record":
-                if op.get("same_object") and self.last_record_obj is not None:
-                    robj = self.last_record_obj
-                    rd = observe.record_dump(robj)
-                    mrec = MRecord.from_dump(rd)
-                    self.probe("same_object_twice")
-                else:
-                    robj = c.Record(**rd)
-                self.last_record_obj = robj
-                self.last_record_dump = copy.deepcopy(rd)
-                conv.add_record(robj, **flag_kwargs(op, cs, merge))
-            else:
-                coll = COLLECTION_TYPES[op.get("coll", "list")]
-                kw = {}
-                if rd["prefix_synonyms"] or op.get("coll", "list") != "omit":
-                    kw["prefix_synonyms"] = coll(rd["prefix_synonyms"])
-                if rd["uri_prefix_synonyms"] or op.get("coll", "list") != "omit":
-                    kw["uri_prefix_synonyms"] = coll(rd["uri_prefix_synonyms"])
-                self.probe("coll_" + op.get("coll", "list"))
-                conv.add_prefix(rd["prefix"], rd["uri_prefix"], **flag_kwargs(op, cs, merge), **kw)
-        except Exception as e:  # noqa: BLE001
-            err = e
+        if op["op"] == "add_prefix":
+            self.probe("coll_" + op.get("coll", "list"))
+        # "is it known? - no - register it - use it": ONE lookup of ONE name of the submission through ONE
+        # method is the very last thing asked before the call and the very first thing asked after it
+        single = self._single_key(rd, d)
+        pre_single = observe.callm(conv, single[0], *single[1], **single[2])
+        err = self._call(op, robj, cerr, cs, merge)
+        post_single = observe.callm(conv, single[0], *single[1], **single[2])
+        self.single = (single, post_single)
+        self.probe("single_key_asked_last_before_and_first_after")
 
         before_tokens_c = set(self.model.all_curie_tokens())
         before_tokens_u = set(self.model.all_uri_tokens())
-        irr = irregular(rd)
         if irr:
             self.probe("irregular_submission_" + ("refused" if err is not None else "accepted"))
             if err is not None and isinstance(err, ValueError):
@@ -612,10 +618,12 @@ class C05Machine(Machine):
         if err is not None:
             if not isinstance(err, ValueError):
                 raise Violation(PROP, "wrong_exception", site, {"exception": type(err).__name__, "op": op})
-            if post != pre or post_focus != pre_focus:
+            if post != pre or post_focus != pre_focus or post_single != pre_single:
                 raise Violation(PROP, "rejected_changed_state", site,
                                 {"exception": type(err).__name__,
-                                 "diff": observe.diff(pre, post) or observe.diff(pre_focus, post_focus), "op": op})
+                                 "diff": observe.diff(pre, post) or observe.diff(pre_focus, post_focus)
+                                 or [{"lookup": [single[0], list(single[1])], "before": pre_single, "after": post_single}],
+                                 "op": op})
             if not outcome.startswith("reject"):
                 # undo nothing: the model already moved; report
                 raise Violation(PROP, "accept_reject_mismatch", site,
@@ -665,8 +673,9 @@ class C05Machine(Machine):
                     self.probe("merge_into_record_past_position_256")
             if len(mrec.prefix_synonyms) >= 5:
                 self.probe("big_submission")
-            if len(rd["prefix_synonyms"]) != len(set(rd["prefix_synonyms"])) or \
-                    len(rd["uri_prefix_synonyms"]) != len(set(rd["uri_prefix_synonyms"])):
+            rd0 = op["record"]
+            if len(rd0["prefix_synonyms"]) != len(set(rd0["prefix_synonyms"])) or \
+                    len(rd0["uri_prefix_synonyms"]) != len(set(rd0["uri_prefix_synonyms"])):
                 self.probe("synonym_repeated_in_own_record")
             if "" in mrec.all_prefixes():
                 self.probe("empty_prefix_token")
@@ -677,15 +686,31 @@ class C05Machine(Machine):
         self.note_state(self.model.keys(), op["op"], outcome)
         return {"result": result, "model": outcome, "snap": observe.stable_digest(post)}
 
-    def _call(self, op, rd, cs, merge):
-        """The real call (shared by the observed and the unobserved path). Returns the exception or None."""
-        c = self.curies
+    def _single_key(self, rd, d):
+        """(method, args, kwargs): one query about one name of the submission, rotating with the call count."""
+        combos = []
+        for k in [rd["prefix"], *rd["prefix_synonyms"]][:4]:
+            combos += [("get_record", (k,), {}), ("expand_pair_all", (k, "1"), {}), ("expand_all", (k + d + "1",), {}),
+                       ("expand_pair", (k, "1"), {}), ("standardize_prefix", (k,), {}), ("expand", (k + d + "1",), {}),
+                       ("parse_curie", (k + d + "1",), {}), ("get_record", (k,), {"strict": True}),
+                       ("expand_or_standardize", (k + d + "1",), {}), ("standardize_curie", (k + d + "1",), {})]
+        for u in [rd["uri_prefix"], *rd["uri_prefix_synonyms"]][:4]:
+            combos += [("parse_uri", (u + "1",), {"return_none": True}), ("compress", (u + "1",), {}),
+                       ("is_uri", (u + "1",), {}), ("standardize_uri", (u + "1",), {}),
+                       ("compress_or_standardize", (u + "1",), {}), ("get_record", (u,), {})]
+        return combos[(self.n_calls * 7 + len(combos) // 3) % len(combos)]
+
+    def _call(self, op, robj, cerr, cs, merge):
+        """The real call (shared by the observed and the unobserved path). Returns the exception or None.
+        add_prefix is given the caller's data as the op has it (the library builds its own Record)."""
         conv = self.conv
+        rd = op["record"]
         try:
             if op["op"] == "add_record":
-                robj = c.Record(**rd)
+                if robj is None:
+                    raise cerr         # (irregular submission the Record class refused)
                 self.last_record_obj = robj
-                self.last_record_dump = copy.deepcopy(rd)
+                self.last_record_dump = observe.record_dump(robj)
                 conv.add_record(robj, **flag_kwargs(op, cs, merge))
             else:
                 coll = COLLECTION_TYPES[op.get("coll", "list")]
@@ -699,11 +724,11 @@ class C05Machine(Machine):
             return e
         return None
 
-    def _apply_unobserved(self, op, rd, mrec, site, cs, merge):
+    def _apply_unobserved(self, op, rd, mrec, site, cs, merge, robj, cerr, irr):
         """A call after which the converter is NOT looked at: only accept / reject is judged now; what
         the call did to the converter is judged at the next observation (catch-up)."""
-        err = self._call(op, rd, cs, merge)
-        if irregular(rd):
+        err = self._call(op, robj, cerr, cs, merge)
+        if irr:
             if err is not None and isinstance(err, ValueError):
                 outcome = "reject_irregular"
             else:
@@ -782,10 +807,22 @@ class C05Machine(Machine):
             if ffresh != live_focus:
                 raise Violation(PROP, "fresh_mismatch", site,
                                 {"first_lookups_after_the_call": True, "diff": observe.diff(ffresh, live_focus), "op": op})
+            if getattr(self, "single", None) is not None:
+                (m, a, kw), got = self.single
+                want = observe.callm(fresh, m, *a, **kw)
+                if want != got:
+                    raise Violation(PROP, "fresh_mismatch", site,
+                                    {"first_lookup_after_the_call": [m, list(a)], "fresh": want, "live": got, "op": op})
         # oracle 5: every prefix / URI prefix of the submission resolves to one record
         if submitted is not None and target is not None:
             t = target.prefix
             bad = []
+            # the three index dictionaries are looked at when the converter has them (an attribute a
+            # refactoring made private is not the property's business; get_record and parse_uri are)
+            from collections.abc import Mapping as _Mapping
+
+            s2p, pm, rpm = (getattr(conv, n, None) for n in ("synonym_to_prefix", "prefix_map", "reverse_prefix_map"))
+            s2p, pm, rpm = (x if isinstance(x, _Mapping) else None for x in (s2p, pm, rpm))
             for p in sorted(submitted.all_prefixes()):
                 try:
                     rec = conv.get_record(p)
@@ -794,13 +831,13 @@ class C05Machine(Machine):
                     continue
                 if rec is None or rec.prefix != t:
                     bad.append(["get_record", p, None if rec is None else rec.prefix, t])
-                if getattr(conv, "synonym_to_prefix", {}).get(p) != t:
-                    bad.append(["synonym_to_prefix", p, getattr(conv, "synonym_to_prefix", {}).get(p), t])
-                if conv.prefix_map.get(p) != target.uri_prefix:
-                    bad.append(["prefix_map", p, conv.prefix_map.get(p), target.uri_prefix])
+                if s2p is not None and s2p.get(p) != t:
+                    bad.append(["synonym_to_prefix", p, s2p.get(p), t])
+                if pm is not None and pm.get(p) != target.uri_prefix:
+                    bad.append(["prefix_map", p, pm.get(p), target.uri_prefix])
             for u in sorted(submitted.all_uri_prefixes()):
-                if conv.reverse_prefix_map.get(u) != t:
-                    bad.append(["reverse_prefix_map", u, conv.reverse_prefix_map.get(u), t])
+                if rpm is not None and rpm.get(u) != t:
+                    bad.append(["reverse_prefix_map", u, rpm.get(u), t])
                 try:
                     ref = conv.parse_uri(u, return_none=True)
                 except Exception as e:  # noqa: BLE001
